@@ -194,6 +194,27 @@ def check(rep, an, tier):
                                   where=ev.loc, construct=ev.text(), entry=ent, config=res.config)
                     rep.check("R-FLOW", "l1 request re-expands chromatic samples", bool(back), where=res.fn.loc(),
                               construct="cartesian_to_barycentric(X, L1=l1)", entry=ent, config=res.config)
+                    # a chromaticity drawn in the cone's cross-section, scaled to total l1, is in the gamut only if the gamut reaches that
+                    # total AT that chromaticity: the re-expanded samples must pass a membership restriction (rejection / clipping of the
+                    # sampled region to the slice of the gamut at l1) — scaling alone does not give it
+                    mem = [ev for ev in res.events("membership", "membership_call") if R.near(ev) or ev.fn.cls]
+                    restricted = any("l1" in {o.split("|")[0] for o in ((ev.d.get("query") or ev.d.get("B")).flat().deps_all())} for ev in mem
+                                     if (ev.d.get("query") or ev.d.get("B")) is not None)
+                    # … or the sampled point set itself is built for that total (the slice of the gamut at l1)
+                    for cev in calls:
+                        fn_ = cev.d["callee"]
+                        b_ = dict(cev.d["kws"])
+                        for i_, a_ in enumerate(cev.d["args"]):
+                            b_.setdefault(fn_.params[i_], a_)
+                        pv_ = b_.get("P")
+                        if pv_ is not None and "l1" in {o.split("|")[0] for o in (pv_.flat().data | pv_.flat().shp)}:
+                            restricted = True
+                    for ev in back[:1]:
+                        rep.check("R-VALUE", "samples with a requested total are restricted to the gamut's slice at that total", restricted,
+                                  where=ev.loc, construct="cartesian_to_barycentric(X, L1=l1)", entry="ReceptorEstimator.sample_in_hull", config=res.config,
+                                  msg="the l1 branch samples chromaticities in the hull of ALL vertex chromaticities and scales them to the requested "
+                                      "total; nothing restricts them to the slice of the gamut at that total, so for totals above the dimmest "
+                                      "single-source total (or with lb > 0) samples need out-of-bound intensities")
                 if Fax == "#2":
                     CC.dim1(rep, res, ent)
                 CC.corner_map(rep, res, ent)
